@@ -1,8 +1,34 @@
-(** Property C06 — statements only. Each theorem is closed by [exact] of a lemma
-    proved elsewhere and followed by [Print Assumptions]. *)
-From CR Require Import Base Atomic Machine LinksFacts HeapFacts TraceFacts Local.
+(** Property C06 — reference counts exact at all times. *)
+From Coq Require Import Permutation.
+From CR Require Import Base Atomic Machine LinksFacts HeapFacts TraceFacts TraceTotal Local StackBound
+  Termination Perm StdRc StdRefine Tokens InvDef InvLemmas ActBase ActHandles ActAdopt ActMove ActConsume
+  StepFrames StepPanic Purge GroupOps DropDec Group DropLast StepInv RunInv Consequences Common.
 Local Open Scope N_scope.
 
+(** at every call boundary: the counters of a live object are the numbers of
+    strong handles (registers, raw pointers, values in boxes, loose values) and
+    of Weak handles *)
+Theorem C06_counts_exact :
+  forall s o b, Inv s [] -> nth_error (heap_of s) o = Some b -> live b = true ->
+  strong b = Cnt (w_held (sw_strong o) s) /\ weak b = w_held (sw_weak o) s + 1.
+Proof. exact counts_exact. Qed.
+Print Assumptions C06_counts_exact.
+
+Theorem C06_observers_report_handle_counts :
+  forall s r o, Inv s [] -> reg_get s r = RStrong o ->
+  exec_act s None (AStrongCount (HReg r)) = AO s None (RCnt (Cnt (w_held (sw_strong o) s))) [] /\
+  exec_act s None (AWeakCount (HReg r)) = AO s None (RNat (w_held (sw_weak o) s)) [].
+Proof. exact strong_count_exact. Qed.
+Print Assumptions C06_observers_report_handle_counts.
+
+(** in every configuration, also mid-teardown: counter = census over ALL owners
+    (registers, values, frames) *)
+Theorem C06_counts_exact_everywhere :
+  forall pri c c', steps pri c c' -> Inv_cfg c -> Inv_cfg c'.
+Proof. exact steps_inv. Qed.
+Print Assumptions C06_counts_exact_everywhere.
+
+(** recording or removing an adoption changes no counter and no value *)
 Theorem C06_adopt_changes_no_counter :
   forall h a b h',
   adopt h false a b = Ok h' ->
@@ -13,3 +39,14 @@ Theorem C06_adopt_changes_no_counter :
 Proof. exact adopt_spec. Qed.
 Print Assumptions C06_adopt_changes_no_counter.
 
+Theorem C06_unadopt_changes_no_counter :
+  forall h a b h',
+  heap_wf h -> unadopt h false a b = Ok h' ->
+  (forall o l, lget h' o l =
+      if Nat.eqb o b && link_eqb l (a, Bwd) then
+        (if Nat.eqb b a && link_eqb (a, Bwd) (b, Fwd) then lget h a (b, Fwd) - 1 else lget h b (a, Bwd)) - 1
+      else if Nat.eqb o a && link_eqb l (b, Fwd) then lget h a (b, Fwd) - 1
+      else lget h o l) /\
+  heap_same_but_links h h' /\ heap_wf h'.
+Proof. exact unadopt_spec. Qed.
+Print Assumptions C06_unadopt_changes_no_counter.
